@@ -118,7 +118,7 @@ def check(ctx, run):
                         run.fail(Finding("C13.R3", sim.qualname, hazard_key(ns), "ceil of an unguarded float quotient: a horizon that is an exact multiple of dt up to rounding yields one step too many",
                                          file=str(prog.modules[sim.module].path), line=sim.node.lineno, witness="maturity=29/365, dt=1/365 -> 31 points (30 expected)"))
     # ---- R2
-    bsim = prog.functions.get("pfhedge.instruments.derivative.base.BaseDerivative.simulate")
+    bsim = prog.method("pfhedge.instruments.derivative.base.BaseDerivative.simulate")
     if bsim is None:
         raise AnalysisError("anchor vanished: BaseDerivative.simulate")
     d = W.option()
@@ -185,7 +185,7 @@ def forward_start_index_hazard(ctx, run, rule):
                     vals.append(kw["start_index"])
     if not vals:
         raise AnalysisError("EuropeanForwardStartOption.payoff_fn: the start index handed to european_forward_start_payoff was not found")
-    si = prog.functions.get(cq + "._start_index") or pf
+    si = prog.method(cq + "._start_index") or pf
     for val in vals[:1]:
         hazard = any(isinstance(s, Op) and s.op in ("py_floor", "py_ceil", "py_int", "floordiv") for s in walk(val)) and not rounding_guarded(val)
         run.oblige(rule, "EuropeanForwardStartOption: start index", not hazard, str(val))
